@@ -604,6 +604,7 @@ open Rs
 
 structure Inv (P : Params) (R : List Repl) (σ0 : Store) (s : Sys) : Prop where
   sh : SInv P R σ0 s.sh
+  lockValid : ∀ c k, s.sh.lockOf c = some k → k < s.ths.length
   threads : ∀ i (h : i < s.ths.length), TInv P R s.sh i s.ths[i]
 
 theorem step_spec (P : Params) (hnc : P.inner.NoCached) (R : List Repl) (σ0 : Store) (s s' : Sys) (i : Nat)
@@ -620,7 +621,12 @@ theorem step_spec (P : Params) (hnc : P.inner.NoCached) (R : List Repl) (σ0 : S
       · rw [List.getElem?_eq_none h] at hti; cases hti
     have hget : s.ths[i] = t := by rw [List.getElem?_eq_getElem hi] at hti; injection hti
     obtain ⟨hS', hT', hm⟩ := stepThread_spec P hnc R σ0 s.sh i t sh' t' h.sh (hget ▸ h.threads i hi) hst
-    refine ⟨⟨hS', ?_⟩, hm⟩
+    refine ⟨⟨hS', ?_, ?_⟩, hm⟩
+    · intro c k hl
+      simp only [List.length_set]
+      by_cases hki : k = i
+      · subst hki; exact hi
+      · exact h.lockValid c k ((hm.lock c k hki).mp hl)
     intro j hj
     simp only [List.length_set] at hj
     by_cases hji : j = i
@@ -641,12 +647,97 @@ theorem inv_run (P : Params) (hnc : P.inner.NoCached) (R : List Repl) (σ0 : Sto
 
 theorem inv_init (P : Params) (r : RState) (hr : r.Inv) (σ : Store) (progs : List (List Op)) :
     Inv P r.repls σ (initSys r σ progs) := by
-  refine ⟨⟨rfl, hr, ?_, Or.inl rfl, rfl⟩, ?_⟩
+  refine ⟨⟨rfl, hr, ?_, Or.inl rfl, rfl⟩, ?_, ?_⟩
   · intro c h; cases c <;> simp [initSys, Shared.lockOf] at h
+  · intro c k h; cases c <;> simp [initSys, Shared.lockOf] at h
   · intro i hi
     simp only [initSys, List.getElem_map]
     refine ⟨by intro a ha; simp at ha, by intro _ h; simp at h, by intro _ h; simp at h, by intro _ h; simp at h, ?_⟩
     intro c
     cases c <;> simp [Shared.lockOf]
+
+end Rs.ConcV
+
+namespace Rs.ConcV
+open Rs
+
+/-- a thread with work left that is not blocked on an entry lock can take a step -/
+theorem stepThread_isSome (P : Params) (sh : Shared) (i : Nat) (t : Thread) (hne : t.ops ≠ [])
+    (hnb : ∀ col k, t.ops.head? = some (.call (.io (col, k))) → blocked sh i col = false) :
+    (stepThread P sh i t).isSome = true := by
+  unfold stepThread
+  cases hops : t.ops with
+  | nil => exact absurd hops hne
+  | cons op rest =>
+    cases op with
+    | sorted => simp only; split <;> rfl
+    | clone => simp only; split <;> rfl
+    | once => simp only; split <;> (try rfl); split <;> rfl
+    | call c =>
+      cases c with
+      | src => rfl
+      | buffer => rfl
+      | size => rfl
+      | io c2 =>
+        obtain ⟨col, kind⟩ := c2
+        have hb := hnb col kind (by rw [hops]; rfl)
+        cases kind with
+        | stream => simp only [hb, Bool.false_eq_true, if_false]; split <;> (try rfl); split <;> rfl
+        | map => simp only [hb, Bool.false_eq_true, if_false]; split <;> (try rfl); split <;> rfl
+
+/-- **no deadlock, with both column settings**: in every state satisfying the invariant, if some thread has work left then some
+thread can take a step — the holder of an entry lock is never blocked (it waits for no other lock: a `stream_chunks` of a cache-free
+wrapped source touches no other entry), and when no lock is held nobody is -/
+theorem no_deadlock_of_inv (P : Params) (R : List Repl) (σ0 : Store) (s : Sys) (h : Inv P R σ0 s)
+    (hwork : ∃ t ∈ s.ths, t.ops ≠ []) : ∃ i, (step P s i).isSome = true := by
+  by_cases hheld : ∃ c k, s.sh.lockOf c = some k
+  · obtain ⟨c, k, hl⟩ := hheld
+    -- the holder is a live thread in a `stream_chunks(c)` past its first access
+    have hk := h.lockValid c k hl
+    have hT := h.threads k hk
+    have hh := (hT.holder c).mp hl
+    refine ⟨k, ?_⟩
+    simp only [step, List.getElem?_eq_getElem hk, Option.isSome_map]
+    refine stepThread_isSome P s.sh k _ ?_ ?_
+    · intro h0; rw [h0] at hh; simp at hh
+    · intro col kind hhd
+      rw [hh.1] at hhd
+      injection hhd with hhd; injection hhd with hhd; injection hhd with hhd; injection hhd with e1 e2
+      subst e1
+      unfold blocked; rw [hl]; simp
+  · obtain ⟨t, ht, hne⟩ := hwork
+    obtain ⟨i, hi, rfl⟩ := List.getElem_of_mem ht
+    refine ⟨i, ?_⟩
+    simp only [step, List.getElem?_eq_getElem hi, Option.isSome_map]
+    refine stepThread_isSome P s.sh i _ hne ?_
+    intro col kind _
+    unfold blocked
+    cases hlc : s.sh.lockOf col with
+    | none => rfl
+    | some j => exact absurd ⟨col, j, hlc⟩ hheld
+
+end Rs.ConcV
+
+namespace Rs.ConcV
+open Rs
+
+/-- a stored entry stays what it is along every continuation of the execution -/
+theorem entry_run (P : Params) (hnc : P.inner.NoCached) (R : List Repl) (σ0 : Store) (sched : List Nat) :
+    ∀ s : Sys, Inv P R σ0 s → ∀ k v, s.sh.σ.get? k = some v → (run P s sched).sh.σ.get? k = some v := by
+  induction sched with
+  | nil => intro s _ k v h; exact h
+  | cons i is ih =>
+    intro s h k v hv
+    simp only [run]
+    cases hs : step P s i with
+    | none => simpa using ih s h k v hv
+    | some s' =>
+      obtain ⟨h', hm⟩ := step_spec P hnc R σ0 s s' i h hs
+      simpa using ih s' h' k v (hm.entry k v hv)
+
+theorem run_append (P : Params) (s : Sys) (a b : List Nat) : run P s (a ++ b) = run P (run P s a) b := by
+  induction a generalizing s with
+  | nil => rfl
+  | cons i is ih => simp only [List.cons_append, run]; exact ih _
 
 end Rs.ConcV
